@@ -268,7 +268,7 @@ func runC14(c *rt.Ctx) {
 	c.Require("pair-in-C06-excluded-zone", 1000)
 	c.Require("pair-different-byte-lengths", 10000)
 
-	nRand := c.Pick(400000, 6000000)
+	nRand := c.Pick(400000, 20000000)
 	c.Parallel("random-versions", 0, func(w *rt.W) {
 		comp := func() uint64 {
 			switch w.Rng.Intn(6) {
